@@ -643,7 +643,7 @@ class _CUR(GreedySelector):
             if self.n_selected_ % self.recompute_every == 0:
                 self.pi_ = self._compute_pi(self.X_current_)
 
-        self.pi_[last_selected] = 0.0
+        self.pi_[self.selected_idx_[: self.n_selected_]] = 0.0
 
     def _orthogonalize(self, last_selected):
         if self._axis == 1:
@@ -783,7 +783,7 @@ class _PCovCUR(GreedySelector):
             if self.n_selected_ % self.recompute_every == 0:
                 self.pi_ = self._compute_pi(self.X_current_, self.y_current_)
 
-        self.pi_[last_selected] = 0.0
+        self.pi_[self.selected_idx_[: self.n_selected_]] = 0.0
 
     def _compute_pi(self, X, y=None):
         r"""For feature selection, the importance score :math:`\pi` is the sum over
